@@ -1,14 +1,14 @@
 SPECIFICATION TSpec
 CONSTANTS
-  KDom = {1, 2}
-  SDom = {1, 2}
+  KDom = {1, 2, 3}
+  SDom = {1}
   NDom = {1}
   BDom = {1}
   UDom = {1}
   JDom = {1}
   RDom = {1}
   FilterCols = {"k", "s", "n", "b", "u"}
-  PairCols = {"s"}
+  PairCols = {"k", "s"}
   MaxFilters = 2
   Impl = "fixed"
   Depth = 0
